@@ -515,9 +515,14 @@ def _table(r, q):
     return out, dup
 
 
-def _metrics_equal(a, b):
-    if a is None or b is None:
-        return a is None and b is None
+def _metrics_equal(a, b, col=""):
+    # b is the model's fold; MIN / MAX / AVG over no non-null value has no value. The engine renders that as null or as
+    # an empty cell ("") for MIN / MAX and as 0.0 for AVG (sum 0 over count 0); the property does not say which marker
+    # is right, so those markers - and nothing else (a number, a stale minimum) - are accepted
+    if b is None:
+        return a is None or a == "" or (col.startswith("avg_") and a == 0)
+    if a is None:
+        return False
     try:
         return abs(float(a) - float(b)) <= 1e-9 * max(1.0, abs(float(a)), abs(float(b)))
     except (TypeError, ValueError):
@@ -554,7 +559,7 @@ def on_agg(self, li, si, st, meta, issue, r):
                 v in (0, None) for v in ref[()].values()) and len(got) <= 1:
             # aggregate over an empty selection without grouping: an empty table and a single row of
             # zero / null metrics are both acceptable renderings
-            if not got or all(_metrics_equal(got[k].get(c), w) or got[k].get(c) in (0, None) for k in got for c, w in ref[()].items()):
+            if not got or all(_metrics_equal(got[k].get(c), w, c) or got[k].get(c) in (0, None) for k in got for c, w in ref[()].items()):
                 continue
         lim = q.get("limit")
         if lim is not None:
@@ -571,7 +576,7 @@ def on_agg(self, li, si, st, meta, issue, r):
             for col, wv in want[k].items():
                 if col not in got[k]:
                     self.v(clause, li, si, f"{what}: metric column {col} missing (columns {r.columns})", atoms=atoms, sub="columns")
-                elif not _metrics_equal(got[k][col], wv):
+                elif not _metrics_equal(got[k][col], wv, col):
                     self.v(clause, li, si, f"{what}: group {k} {col} = {got[k][col]!r}, fold over the selected events gives {wv!r}", atoms=atoms, sub="value", metric=col.split("_")[0])
     if q.get("limit") is None:
         self._cur_atoms = atoms
